@@ -368,6 +368,29 @@ ALL_DISCRETE_OFFLINE = {"arith", "fn", "cmp", "bool", "iffxor", "event", "past",
 PAST_ONLY = {"arith", "fn", "cmp", "bool", "iffxor", "event", "past", "bpast", "since", "bsince", "not"}
 
 
+def shared_variable_formula(rng, g, vars_):
+    """One variable read directly (no predicate in between) by two or three temporal operators: what the first one does with the
+    list of the variable must not be seen by the others.  To be used with traces that are often shorter than the bounds."""
+    x = ("v", rng.choice(list(vars_)))
+
+    def top():
+        k = rng.choice(["t1", "tb1", "tb1", "t2", "tb2"])
+        a = rng.randint(0, 3)
+        b = a + rng.randint(0, 4)
+        y = x if rng.random() < 0.7 else g.formula(1)
+        if k == "t1":
+            return ("t1", rng.choice(["once", "hist", "ev", "alw", "prev", "next", "sprev", "snext"]), x)
+        if k == "tb1":
+            return ("tb1", rng.choice(["once", "hist", "ev", "alw"]), a, b, x)
+        if k == "t2":
+            return ("t2", rng.choice(["since", "until"]), x, y) if rng.random() < 0.5 else ("t2", rng.choice(["since", "until"]), y, x)
+        return ("tb2", rng.choice(["since", "until"]), a, b, x, y) if rng.random() < 0.5 else ("tb2", rng.choice(["since", "until"]), a, b, y, x)
+    f = ("b", rng.choice(["and", "or", "implies"]), top(), top())
+    if rng.random() < 0.3:
+        f = ("b", rng.choice(["and", "or", "implies"]), f, top())
+    return f
+
+
 def gen_trace(rng, vars_, n, vals=(-3.0, -2.0, -1.0, -0.5, 0.0, 0.5, 1.0, 2.0, 3.0, 4.0)):
     """Small dyadic values with many ties."""
     mode = rng.random()
